@@ -128,8 +128,12 @@ class Snapshot:
     def _gc(self):
         ds = [os.path.join(CACHE, d) for d in os.listdir(CACHE) if os.path.isdir(os.path.join(CACHE, d))]
         ds.sort(key=os.path.getmtime, reverse=True)
+        # keep the three newest and everything used within the last 40 minutes (other check processes – sweeps,
+        # seed evaluations – may be running from those)
+        now = time.time()
         for d in ds[3:]:
-            shutil.rmtree(d, ignore_errors=True)
+            if now - os.path.getmtime(d) > 2400:
+                shutil.rmtree(d, ignore_errors=True)
 
     def build(self, what):
         """what: 'mockery' | 'tools' | 'verifh' | 'verifx'. Returns path or None (error kept)."""
